@@ -295,7 +295,15 @@ def check(model, rep):
             # (`theta__was`: the value the parameter had before it was re-bound on this path)
             none_path = any(k_.replace(' ', '').replace('__was', '') in ('%sisNone' % th, '%s==None' % th) and v_ for k_, v_ in pth.facts.items()) or \
                 any(k_.replace(' ', '').replace('__was', '') in ('%sisnotNone' % th, '%s!=None' % th) and not v_ for k_, v_ in pth.facts.items())
-            stored = a1 in ('self._theta', 'self._theta.copy()', 'np.copy(self._theta)', 'numpy.copy(self._theta)')
+            STORED = ('self._theta', 'self._theta.copy()', 'np.copy(self._theta)', 'numpy.copy(self._theta)')
+            stored = a1 in STORED
+            # the choice written as a conditional expression inside the call
+            if isinstance(e_.args[1], ast.IfExp):
+                t_ = src(e_.args[1].test).replace(' ', '')
+                b_, o_ = src(e_.args[1].body).replace(' ', ''), src(e_.args[1].orelse).replace(' ', '')
+                if (t_ in ('%sisNone' % th, '%s==None' % th) and b_ in STORED and o_ == th) or \
+                        (t_ in ('%sisnotNone' % th, '%s!=None' % th) and o_ in STORED and b_ == th):
+                    a1 = th
             if a0 != table or not (a1 == th or (stored and none_path)):
                 bad = pth.ret
                 break
